@@ -599,3 +599,50 @@ package xixi_kv
 //@   loop 1
 //@     invariant [trimmed-so-far] db.mu.heldW && !called("(*sync.RWMutex).Unlock") && db.options.FileIOType == fio.MemoryMap && trimmed(db.activeFile) && (forall id :: {db.olderFiles[id]} seen(id) ==> has(db.olderFiles, id) && trimmed(db.olderFiles[id]))
 //@     invariant [kept] db.activeFile == old(db.activeFile) && db.olderFiles == old(db.olderFiles) && isMapped(db.activeFile) && (forall id :: {db.olderFiles[id]} has(db.olderFiles, id) ==> db.olderFiles[id] != nil && isMapped(db.olderFiles[id]) && mmOf(db.olderFiles[id]) != mmOf(db.activeFile) && mmOf(db.olderFiles[id]).file != mmOf(db.activeFile).file)
+
+// the user iterator: every positioning operation is followed by the prefix filter, which stops on a key that has the
+// prefix or at the end
+//@ pred INV_uiter(it) = it != nil && it.indexIter != nil && (it.indexIter.heap != nil ==> INV_iter(it.indexIter))
+
+//@ func (*xixi_kv.Iterator).skipToNext
+//@   props C10 C09
+//@   requires [inv] INV_uiter(it)
+//@   ensures [inv] INV_uiter(it) && it.indexIter == old(it.indexIter)
+//@   checks [stops-on-a-key-with-the-prefix-or-at-the-end] len(it.options.Prefix) > 0 && result_of("(*index.IndexIterator).Valid") ==> called("bytes.Compare") && result_of("bytes.Compare") == 0
+//@   at bytes.Compare assert [compares-the-prefix-with-the-head-of-the-key] arg0 == it.options.Prefix && len(arg1) == len(it.options.Prefix) && arr(arg1) == arr(result_of("(*index.IndexIterator).Key")) && off(arg1) == off(result_of("(*index.IndexIterator).Key"))
+//@   modifies type:index.IndexIterator.oldItems, type:index.iterHeap.items, arrays:index.iterator, type:index.mapIterator.curIndex, type:index.skipListIterator.curIndex, type:index.btreeIterator.current, type:index.btreeIterator.isIterable
+//@   loop 1
+//@     invariant [inv] INV_uiter(it) && it.indexIter == old(it.indexIter) && prefixLen == len(it.options.Prefix) && prefixLen > 0
+
+//@ func (*xixi_kv.DB).NewIterator
+//@   props C10 C09
+//@   requires [api] API(db)
+//@   ensures [iter] INV_uiter(result) && fresh(result) && result.db == db
+//@   checks [a-fresh-iterator-is-filtered] called("(*xixi_kv.Iterator).skipToNext")
+//@   modifies type:index.IndexIterator.oldItems, type:index.iterHeap.items, arrays:index.iterator, type:index.mapIterator.curIndex, type:index.skipListIterator.curIndex, type:index.btreeIterator.current, type:index.btreeIterator.isIterable
+
+//@ func (*xixi_kv.Iterator).Rewind
+//@   props C10 C09
+//@   requires [inv] INV_uiter(it)
+//@   ensures [inv] INV_uiter(it)
+//@   checks [filtered-after-moving] called("(*index.IndexIterator).Rewind") && called("(*xixi_kv.Iterator).skipToNext")
+//@   modifies type:index.IndexIterator.oldItems, type:index.iterHeap.items, arrays:index.iterator, type:index.mapIterator.curIndex, type:index.skipListIterator.curIndex, type:index.btreeIterator.current, type:index.btreeIterator.isIterable
+//@ func (*xixi_kv.Iterator).Seek
+//@   props C10 C09
+//@   requires [inv] INV_uiter(it)
+//@   ensures [inv] INV_uiter(it)
+//@   at (*index.IndexIterator).Seek assert [same-target] arg1 == key
+//@   checks [filtered-after-moving] called("(*index.IndexIterator).Seek") && called("(*xixi_kv.Iterator).skipToNext")
+//@   modifies type:index.IndexIterator.oldItems, type:index.iterHeap.items, arrays:index.iterator, type:index.mapIterator.curIndex, type:index.skipListIterator.curIndex, type:index.btreeIterator.current, type:index.btreeIterator.isIterable
+//@ func (*xixi_kv.Iterator).Next
+//@   props C10 C09
+//@   requires [inv] INV_uiter(it)
+//@   ensures [inv] INV_uiter(it)
+//@   checks [filtered-after-moving] called("(*index.IndexIterator).Next") && called("(*xixi_kv.Iterator).skipToNext")
+//@   modifies type:index.IndexIterator.oldItems, type:index.iterHeap.items, arrays:index.iterator, type:index.mapIterator.curIndex, type:index.skipListIterator.curIndex, type:index.btreeIterator.current, type:index.btreeIterator.isIterable
+//@ func (*xixi_kv.Iterator).Value
+//@   props C10 C09
+//@   requires [inv] INV_uiter(it) && it.db != nil && API(it.db)
+//@   requires [positioned] it.indexIter.heap != nil && len(it.indexIter.heap.items) > 0
+//@   at (*xixi_kv.DB).getValueByPosition assert [value-at-the-snapshot-position] arg1 == result_of("(*index.IndexIterator).Value") && arg0 == it.db
+//@   modifies it.db.mu.heldR
